@@ -55,7 +55,9 @@ func runSchedules(r *core.Run) {
 	}
 	r.Section(fmt.Sprintf("schedules of mvs.BuildList (10 runners) with <=%d deviations on %d graphs", quickBound, len(schedGraphs)))
 	for _, sg := range schedGraphs {
-		if !r.Mine() {
+		// every worker takes part in every exploration and owns a share of its
+		// first-level subtrees (sched.ExploreSharded)
+		if mine := r.Mine(); (r.Only > 0 && !mine) || r.Expired() {
 			continue
 		}
 		sg := sg
@@ -64,7 +66,7 @@ func runSchedules(r *core.Run) {
 	}
 	r.Section("par.Work alone: Do(n) for n in {2,3}, 3 items where item 0 adds items 1 and 2")
 	for _, n := range []int{2, 3} {
-		if !r.Mine() {
+		if mine := r.Mine(); (r.Only > 0 && !mine) || r.Expired() {
 			continue
 		}
 		n := n
@@ -95,7 +97,7 @@ func exploreBuildList(r *core.Run, c kase, sg schedGraph, bound, budget int) {
 	}
 	want := ""
 	outcomes := map[string]int{}
-	res := sched.Explore(bound, 200000, budget, func() (func(), func(*sched.S) bool) {
+	res := sched.ExploreSharded(bound, 200000, budget, r.Own, func() (func(), func(*sched.S) bool) {
 		c2 := kase{Graph: sg.g, Target: sg.target}
 		base, t := build(c2)
 		rq := &schedReqs{reqs: *base, calls: map[V]int{}}
@@ -106,6 +108,7 @@ func exploreBuildList(r *core.Run, c kase, sg schedGraph, bound, budget int) {
 		var err error
 		body := func() { list, err = mvs.BuildList([]V{target}, rq) }
 		check := func(s *sched.S) bool {
+			r.Alive()
 			fail := func(kind string) bool {
 				var choices []int
 				for _, p := range s.Points {
@@ -166,9 +169,11 @@ func exploreBuildList(r *core.Run, c kase, sg schedGraph, bound, budget int) {
 	r.Count("schedules", res.Executions)
 	r.Count("schedules_bound_complete_"+sg.name, boolInt(res.Complete))
 	r.Outcome("schedule:ok")
-	r.Nontrivial()
-	r.Sample(map[string]any{"graph": sg.name, "schedules": res.Executions, "deviation_bound": bound, "complete": res.Complete, "max_choice_points": res.MaxPointsPerExec, "distinct_results": len(outcomes)})
-	r.State("sched:" + sg.name)
+	if r.ShardK == 0 {
+		r.Nontrivial()
+		r.Sample(map[string]any{"graph": sg.name, "schedules_in_this_worker": res.Executions, "deviation_bound": bound, "complete": res.Complete, "max_choice_points": res.MaxPointsPerExec, "distinct_results": len(outcomes)})
+		r.State("sched:" + sg.name)
+	}
 }
 
 func boolInt(b bool) int {
@@ -179,7 +184,7 @@ func boolInt(b bool) int {
 }
 
 func exploreWork(r *core.Run, c kase, n, bound, budget int) {
-	res := sched.Explore(bound, 100000, budget, func() (func(), func(*sched.S) bool) {
+	res := sched.ExploreSharded(bound, 100000, budget, r.Own, func() (func(), func(*sched.S) bool) {
 		var w par.Work[int]
 		ran := map[int]int{}
 		body := func() {
@@ -195,6 +200,7 @@ func exploreWork(r *core.Run, c kase, n, bound, budget int) {
 			})
 		}
 		check := func(s *sched.S) bool {
+			r.Alive()
 			fail := func(kind string) bool {
 				var choices []int
 				for _, p := range s.Points {
@@ -228,6 +234,8 @@ func exploreWork(r *core.Run, c kase, n, bound, budget int) {
 	r.Trace(res.Executions)
 	r.Count("schedules", res.Executions)
 	r.Outcome("schedule:ok")
-	r.Nontrivial()
-	r.Sample(map[string]any{"par.Work runners": n, "schedules": res.Executions, "deviation_bound": bound, "complete": res.Complete})
+	if r.ShardK == 0 {
+		r.Nontrivial()
+		r.Sample(map[string]any{"par.Work runners": n, "schedules_in_this_worker": res.Executions, "deviation_bound": bound, "complete": res.Complete})
+	}
 }
